@@ -51,7 +51,7 @@ def observe(t):
 def run_case(c):
     rc = tsmlib.rig_cfg(seg=c["cMax"], lq=c["lq"], lr=c["lr"], pwc=c["cPW"], pws=c["sPW"], retries=1,
                         c_max=c["cMax"], s_max=c["sMax"], c_seg=c["cSeg"], s_seg=c["sSeg"],
-                        c_maxsegs=None if c["cSegs"] == 0 else c["cSegs"], s_maxsegs=None, known=c["known"], pre=c.get("pre", False), s_knows_c_max=c.get("iamMax"),
+                        c_maxsegs=None if c["cSegs"] == 0 else c["cSegs"], s_maxsegs=None if c["sSegs"] == 0 else c["sSegs"], known=c["known"], pre=c.get("pre", False), s_knows_c_max=c.get("iamMax"),
                         reann=c.get("reann"), s_npdu=c.get("npdu"))
     t = tsmlib.record(rc, limit=6000)
     return rc, t
@@ -124,6 +124,11 @@ CHECK_DEADLOCK FALSE
             for lq in sorted({sMax - 4, sMax - 3, sMax + 60, oldMax - 4, oldMax - 3, 2 * min(sMax, oldMax) + 7}):
                 cases.append(dict(cSeg="segmentedBoth", cMax=1476, cSegs=0, cPW=2, sSeg="segmentedBoth", sMax=sMax, sSegs=0, sPW=2,
                                   known=True, lq=lq, lr=5, reann={"max": oldMax, "when": when}))
+    # the server's OWN limit on segments it receives says nothing about the client: a client that leaves max-segments unspecified
+    # (or announces more than 64) gets a response of any number of segments
+    for cSegs, sSegs, n in ((0, 2, 5), (0, 4, 9), (0, 8, 15)):
+        cases.append(dict(cSeg="segmentedBoth", cMax=50, cSegs=cSegs, cPW=4, sSeg="segmentedBoth", sMax=50, sSegs=sSegs, sPW=4, known=True,
+                          lq=5, lr=45 * (n - 1) + 10))
     # the application also recorded the largest NPDU of the path to the peer, larger than what the peer itself accepts:
     # the peer's own limit still rules
     for sMax, sSeg in ((480, "segmentedBoth"), (206, "noSegmentation"), (128, "segmentedTransmit"), (50, "segmentedBoth")):
